@@ -17,7 +17,7 @@ FILTERS = c04.FILTERS
 
 
 def expected(kind, pos, joins, ds, uh, filt):
-    F = filt != "reject"
+    F = not filt.startswith("reject")
     if not joins:
         return {"no", "NotImplementedError"} if (kind == "X" and uh == "ERROR" and ds) else "no"
     if not ds:
@@ -65,7 +65,9 @@ def replay(cls, pos, joins, ds, uh, filt):
          "a = Vertex(); b = Vertex(); c = Vertex()"]
     o = "a" if pos == "both" else ("b" if joins else "c")
     L.append(f"L = {cls}({'a, ' + o if pos != 'v2' else o + ', a'})")
-    f = {"none": "None", "accept": "lambda e: True", "reject": "lambda e: False"}[filt]
+    f = {"none": "None", "accept": "lambda e: True", "reject": "lambda e: False",
+         "accept-falsy": "type('F', (), {'__call__': lambda s, e: True, '__len__': lambda s: 0})()",
+         "reject-falsy": "type('F', (), {'__call__': lambda s, e: False, '__len__': lambda s: 0})()"}[filt]
     L.append(f"print(helpers.find_links(a, {'a' if pos == 'both' and joins else 'b'}, {ds}, helpers.LNK_UNKNOWN_{uh}, {f}))")
     return "\n".join(L)
 
@@ -88,9 +90,9 @@ def run(ctx):
         exp = expected(kind, pos, joins, ds, uh, filt)
         h.reset()
         a, b, l = build(h, cls, pos, joins)
-        cb = c04.mkfilter(filt)
         try:
-            out = h.call(fn, a, b, ds, C[uh], cb)
+            cb = c04.mkfilter(filt, h=h)
+            out = h.call(fn, a, b, ds, C[uh], c04.cbval(cb))
         except Unknown as u:
             res.ob(False)
             res.undecide(f"{FN} row {cls},{pos},{joins},{ds},{uh},{filt}: {u}")
@@ -175,7 +177,7 @@ def run(ctx):
         except Unknown as u:
             res.undecide(f"unlink post-state {classes},{poss}: {u}")
     res.rule("UNLINK-EMPTY", nun)
-    common.vacuity(res, "TABLE", 540)
+    common.vacuity(res, "TABLE", 900)
     common.vacuity(res, "RELATION", 100)
     res.explanation = ("All 540 abstract input classes of find_links() were evaluated on the current source and compared with the specified table; "
                        "each returning row was related to the derived neighbors() row for the same link and settings; unlink() was evaluated on "
